@@ -28,7 +28,7 @@ class SeqCase:
         rc = repr(c)
         if len(rc) >= 200:
             rc = (rc[:90] + f'...<{len(rc)} chars of repr, exact content in the replay file>') if isinstance(c, int) else repr(c[:80]) + f'...<{len(c)} items>'
-        return f'segno.make_sequence({rc}, ' + ', '.join(f'{k}={v!r}' for k, v in sorted(self.kw.items())) + ')'
+        return ('segno.QRCodeSequence(map(segno.QRCode, segno.encoder.encode_sequence(' if 'eci' in self.kw else 'segno.make_sequence(') + f'{rc}, ' + ', '.join(f'{k}={v!r}' for k, v in sorted(self.kw.items())) + ')'
 
     def replay(self):
         c = self.content
@@ -69,7 +69,10 @@ def seq_str(codes):
 
 def impl_sequence(case):
     try:
-        s = segno.make_sequence(case.content, **case.kw)
+        if 'eci' in case.kw:   # make_sequence has no eci parameter: the encoder level function behind it, wrapped as make_sequence wraps it
+            s = segno.QRCodeSequence(map(segno.QRCode, segno.encoder.encode_sequence(case.content, **case.kw)))
+        else:
+            s = segno.make_sequence(case.content, **case.kw)
     except Exception as ex:  # noqa
         case.exc = exc_name(ex)
         case.extra['exc_text'] = str(ex)[:200]
@@ -85,7 +88,7 @@ def model_seq_line(idx, case):
     ps = ','.join(f'{hexs(b)}:{opt(m)}:{enc}' for b, m, enc in parts)
     sc = kw.get('symbol_count')
     return (f'seq id={idx} parts={ps} error={opt(norm_error(kw.get("error")))} version={opt(norm_version(kw.get("version")))} '
-            f'mask={opt(kw.get("mask"))} eci=0 boost={int(bool(kw.get("boost_error", True)))} count={"-" if sc is None else int(sc)}')
+            f'mask={opt(kw.get("mask"))} eci={int(bool(kw.get("eci", False)))} boost={int(bool(kw.get("boost_error", True)))} count={"-" if sc is None else int(sc)}')
 
 
 def strip_model(line):
